@@ -108,7 +108,7 @@ fn main() {
         let srv = Arc::new(StreamServer::with_config(
             listener.clone(),
             VecBufSource,
-            Arc::new(stack(ScriptSvc::echo())),
+            Arc::new(stack(ScriptSvc::<Vec<u8>>::echo())),
             cfg,
         ));
         let srv_task = {
@@ -119,7 +119,7 @@ fn main() {
         let dsrv = Arc::new(DgramServer::new(
             sock.clone(),
             VecBufSource,
-            Arc::new(stack(ScriptSvc::echo())),
+            Arc::new(stack(ScriptSvc::<Vec<u8>>::echo())),
         ));
         let dsrv_task = {
             let s = dsrv.clone();
